@@ -899,6 +899,21 @@ def sk_matrix(d_a, d_b, key):
         bal = _named_partitions(int(key.split(":")[2]), min(d_a, d_b))[0]
         v, s = pure(d_a, d_b, bal, "g0", "g1")
         return E.herm((s[0] ** 2 + 0.05) * np.eye(n) - E.proj(v))
+    if key.startswith("proj:me2"):
+        # projector onto span{(|00>+|11>)/sqrt2, (|02>+|13>)/sqrt2} (qubit on the smaller side): every vector of the range is
+        # maximally entangled, so the S(1)-norm is exactly 1/2; optionally dressed by a generic local unitary
+        small, big = min(d_a, d_b), max(d_a, d_b)
+        assert small == 2 and big >= 4
+        vs = []
+        for off in (0, 2):
+            v = np.zeros((2, big), dtype=complex)
+            v[0, off] = v[1, off + 1] = 1 / np.sqrt(2)
+            vs.append(v if d_a == 2 else v.T)
+        pr = sum(E.proj(v.reshape(-1)) for v in vs)
+        if key.endswith(":lu"):
+            u = np.kron(cat.unitary(d_a, "g0"), cat.unitary(d_b, "g1"))
+            pr = u @ pr @ u.conj().T
+        return E.herm(pr)
     if key == "herm:swap":
         m = np.zeros((n, n), dtype=complex)
         for a in range(d_a):
@@ -930,6 +945,12 @@ def _sk_cases(tier):
                         yield {"dA": d_a, "dB": d_b, "x": key, "k": k, "effort": eff, "seed": sd, "dim": "list"}
                 for df in dimforms_for(d_a, d_b)[1:]:  # the other dim forms (omitted, int)
                     yield {"dA": d_a, "dB": d_b, "x": key, "k": k, "effort": 0, "seed": 0, "dim": df}
+    # unequal local dimensions outside the 2x3 shortcut (added after seeded change C14-2): k = 1 on 2x4 and 4x2
+    for (d_a, d_b) in ((2, 4), (4, 2)):
+        for key in ("proj:me2", "proj:me2:lu", f"gd:0:{d_a * d_b}", "gd:0:3", "herm:diff", f"noisy:{_pkey((3, 3), 'g0', 'g1')}:0.5"):
+            for eff in (0, 1):
+                yield {"dA": d_a, "dB": d_b, "x": key, "k": 1, "effort": eff, "seed": 0, "dim": "list"}
+            yield {"dA": d_a, "dB": d_b, "x": key, "k": 1, "effort": 0, "seed": 0, "dim": "int"}
     if tier == "thorough":
         for (d_a, d_b) in ((2, 4), (4, 2)):
             for key in (f"gd:0:{d_a * d_b}", "mix:0:8"):
@@ -1024,6 +1045,8 @@ def sk_check(case):
     elif key.startswith("pure:"):
         s = _pure_from_key(d_a, d_b, key.split(":", 1)[1])[1]
         exact = E.sk_vector_norm_cf(s, k) ** 2  # |psi><psi|: sum of the k largest s_i^2
+    elif key.startswith("proj:me2") and k == 1:
+        exact = 0.5
     elif key.startswith("prod:") or key == "herm:swap":
         exact = opn  # attained by a product vector (product of top eigenvectors / a (x) a)
     if exact is not None and (lo > exact + eps or up < exact - eps):
